@@ -333,7 +333,7 @@ func rulePAIR3(w *World) []Ob {
 				if !ok {
 					return
 				}
-				v := r.Results[len(r.Results)-1]
+				v := rr(r)[len(rr(r))-1]
 				success := false
 				if b, isC := constBool(v); isC {
 					success = b
@@ -454,7 +454,7 @@ func failureLeadsToErrorExit(p *Prog, nc *nilCtx, call *ssa.Call) string {
 		for _, in := range b.Instrs {
 			switch x := in.(type) {
 			case *ssa.Return:
-				for _, rv := range x.Results {
+				for _, rv := range rr(x) {
 					if isErrorType(rv.Type()) && nc.nonNil(rv, x, 0) {
 						produced = true
 					}
@@ -580,7 +580,7 @@ func rulePAIR4(w *World) []Ob {
 			if !ok {
 				return
 			}
-			if ld, ok := isLoad(stripConv(r.Results[0])); ok {
+			if ld, ok := isLoad(stripConv(rr(r)[0])); ok {
 				if g, ok := ld.(*ssa.Global); ok {
 					guard := ""
 					for _, gd := range guardsOf(r.Block()) {
@@ -616,8 +616,8 @@ func rulePAIR4(w *World) []Ob {
 func returnsClosure(fn *ssa.Function) bool {
 	ok := false
 	allInstrs(fn, func(in ssa.Instruction) {
-		if r, isR := in.(*ssa.Return); isR && len(r.Results) == 1 {
-			if _, isMC := stripConv(r.Results[0]).(*ssa.MakeClosure); isMC {
+		if r, isR := in.(*ssa.Return); isR && len(rr(r)) == 1 {
+			if _, isMC := stripConv(rr(r)[0]).(*ssa.MakeClosure); isMC {
 				ok = true
 			}
 		}
